@@ -37,8 +37,8 @@ CLAIMED = {
              design='6 C08', technique='Coq proof over executable model + extracted-model/implementation correspondence'),
  'C18': dict(text='Theorems for every message history about a Gallina model of tN2kDeviceList (object-id heap with explicit freed state): no use of a freed entry, no index outside Sources[] (the C07 half); at most one entry '
                   'per non-zero NAME; by-NAME and by-source look-ups agree with an abstract NAME->address mirror for every undisplaced NAME; PGN lists and (ASCII) configuration information are reported back, the updated flag is '
-                  'raised on every change; the product-information clause is refuted for the parked-device history (known finding) and proved without it.  Model tied to the C++ by correspondence on message histories.',
-             note=TB + 'Known finding parked-device (machine-checked refutation C18_info_prod_refuted + replay).  Request pacing is compared model-vs-code but its clock-origin dependence (D-20) is reported under C13.  '
+                  'raised on every change; the product-information clause is refuted for the parked-device history (known finding) and proved without it; pacing_shift: the ISO requests the list sends are the same, message by message, for every clock origin (mod 2^32).  Model tied to the C++ by correspondence on message histories, each pacing history run from 11 clock origins.',
+             note=TB + 'Known finding parked-device (machine-checked refutation C18_info_prod_refuted + replay).  The clock-origin dependence of the request pacing (D-20) was repaired in /repo (e1ce509) and is now a theorem (C18_pacing_shift).  '
                   'UCS-2 configuration strings and product-string extraction are tied by correspondence only; LP64 build.',
              design='6 C18', technique='Coq proof over executable model + extracted-model/implementation correspondence'),
  'C14': dict(text='Theorems for every history of create/attach/detach/destroy over two bus objects: the pointer-list model of AttachMsgHandler/DetachMsgHandler keeps both lists sorted, duplicate-free and consistent with each '
@@ -117,7 +117,7 @@ CLAIMED = {
                   'wrap and the 64-bit roll counter included, polls at most 2^32-1 ms apart) yields the same events, and the final states are related by the shift; primitives (N2kIsTimeBefore, N2kHasElapsed, tN2kScheduler, '
                   'tN2kSyncScheduler, slot ageing, N2kMillis64) are shift-invariant and timers armed before the wrap fire on time.  Metamorphic correspondence: every generated history is run at several origins in the C++ '
                   'and in the model and the relative-time traces compared.',
-             note=TB + 'Defects found and repaired: e3d90bc (heartbeat before Open scheduled on the absolute clock); the device-list pacing dependence (D-20) is handled under C18.  Hypothesis: consecutive clock reads less than '
+             note=TB + 'Defects found and repaired: e3d90bc (heartbeat before Open scheduled on the absolute clock); the device-list pacing dependence (D-20) was repaired (e1ce509) and is proved under C18 (C18_pacing_shift).  Hypothesis: consecutive clock reads less than '
                   '2^32 ms apart (otherwise the roll counter of N2kMillis64 misses a wrap; stated in millis64_gap).',
              design='6 C13', technique='Coq relational (two-run) invariant proof over executable model + metamorphic extracted-model/implementation correspondence'),
 }
